@@ -222,7 +222,7 @@ def handleAuthenticated (s : St) (sock : Sock) (src : Addr) (r : Req) : St :=
   let s1 := learn s sock src r.priority
   let s2 := latch s1 sock src
   let s3 := tcpNominate s2 sock src
-  if r.useCandidate then useCandidate s3 sock src else s3
+  if r.useCandidate && r.accepted then useCandidate s3 sock src else s3      -- `msg.use_candidate && may_nominate` (every mode)
 
 /-- `handle_packet`'s request arm + `handle_stun_request`: the reply is sent first, unconditionally;
 `authenticated = transport_mode != WebRtc || stun_request_authenticated(..)` gates everything else -/
@@ -306,6 +306,16 @@ def resolveTcp (t : TcpTable) (pairRemote localBase : Addr) : Option Addr :=
   match t.find? (fun e => e.2 = pairRemote) with
   | some e => some e.2
   | none => (t.find? (fun e => e.1 = localBase)).map (·.2)
+
+/-- `nudge_passive_tcp_nomination` (PeerConnection calls it whenever ICE is Connected / Completed): a controlled
+agent without a nomination completes it on the first registered TCP stream whose peer is a remote candidate
+(since the `fix:` commit; before, on the first stream whatever its peer). `t` = the stream table. -/
+def nudge (s : St) (t : TcpTable) : St :=
+  if s.role ≠ .controlled ∨ s.nominated.isSome then s
+  else
+    match t.find? (fun e => s.remotes.any (fun c => c.address = e.2)) with
+    | some e => tcpNominate s (.tcpStream e.1) e.2
+    | none => s
 
 /-! ### other consumers of STUN responses -/
 
